@@ -12,6 +12,7 @@ package c08
 import (
 	"context"
 	"encoding/json"
+	"errors"
 	"fmt"
 	"sort"
 	"strings"
@@ -20,8 +21,11 @@ import (
 
 	"verifharness/vh"
 
+	enginetypes "github.com/projecteru2/core/engine/types"
 	"github.com/projecteru2/core/resource/cobalt"
 	"github.com/projecteru2/core/resource/plugins"
+	"github.com/projecteru2/core/resource/plugins/mocks"
+	plugintypes "github.com/projecteru2/core/resource/plugins/types"
 	"github.com/projecteru2/core/resource/plugins/cpumem"
 	ctypes "github.com/projecteru2/core/resource/plugins/cpumem/types"
 	resourcetypes "github.com/projecteru2/core/resource/types"
@@ -82,14 +86,77 @@ func natList(xs []int) string {
 	return vh.List(it)
 }
 
+// ---------- a second plugin that can be told to fail ----------
+// faulty answers every call with an empty response; the harness can make its
+// next CalculateDeploy / CalculateRealloc (failCalc) or SetNodeResourceUsage
+// (failCommit) return an error, which exercises the manager's error paths.
+type faulty struct {
+	*mocks.Plugin
+	failCalc   bool
+	failCommit bool
+	commits    int
+}
+
+var errInjected = errors.New("injected plugin failure")
+
+func (f *faulty) Name() string { return "faulty" }
+func (f *faulty) AddNode(context.Context, string, resourcetypes.RawParams, *enginetypes.Info) (*plugintypes.AddNodeResponse, error) {
+	return &plugintypes.AddNodeResponse{}, nil
+}
+func (f *faulty) RemoveNode(context.Context, string) (*plugintypes.RemoveNodeResponse, error) {
+	return &plugintypes.RemoveNodeResponse{}, nil
+}
+func (f *faulty) CalculateDeploy(_ context.Context, _ string, count int, _ resourcetypes.RawParams) (*plugintypes.CalculateDeployResponse, error) {
+	if f.failCalc {
+		return nil, errInjected
+	}
+	r := &plugintypes.CalculateDeployResponse{}
+	for i := 0; i < count; i++ {
+		r.EnginesParams = append(r.EnginesParams, resourcetypes.RawParams{})
+		r.WorkloadsResource = append(r.WorkloadsResource, resourcetypes.RawParams{})
+	}
+	return r, nil
+}
+func (f *faulty) CalculateRealloc(context.Context, string, resourcetypes.RawParams, resourcetypes.RawParams) (*plugintypes.CalculateReallocResponse, error) {
+	if f.failCalc {
+		return nil, errInjected
+	}
+	return &plugintypes.CalculateReallocResponse{EngineParams: resourcetypes.RawParams{}, DeltaResource: resourcetypes.RawParams{}, WorkloadResource: resourcetypes.RawParams{}}, nil
+}
+func (f *faulty) CalculateRemap(context.Context, string, map[string]resourcetypes.RawParams) (*plugintypes.CalculateRemapResponse, error) {
+	return &plugintypes.CalculateRemapResponse{EngineParamsMap: map[string]resourcetypes.RawParams{}}, nil
+}
+func (f *faulty) SetNodeResourceUsage(context.Context, string, resourcetypes.RawParams, resourcetypes.RawParams, []resourcetypes.RawParams, bool, bool) (*plugintypes.SetNodeResourceUsageResponse, error) {
+	f.commits++
+	if f.failCommit {
+		return nil, errInjected
+	}
+	return &plugintypes.SetNodeResourceUsageResponse{}, nil
+}
+func (f *faulty) GetNodeResourceInfo(context.Context, string, []resourcetypes.RawParams) (*plugintypes.GetNodeResourceInfoResponse, error) {
+	return &plugintypes.GetNodeResourceInfoResponse{}, nil
+}
+func (f *faulty) FixNodeResource(context.Context, string, []resourcetypes.RawParams) (*plugintypes.GetNodeResourceInfoResponse, error) {
+	return &plugintypes.GetNodeResourceInfoResponse{}, nil
+}
+
 // ---------- the world ----------
 type world struct {
-	t    *testing.T
-	ctx  context.Context
-	mgr  *cobalt.Manager
-	pl   *cpumem.Plugin
-	base int
-	seq  int
+	t     *testing.T
+	ctx   context.Context
+	mgr   *cobalt.Manager
+	pl    *cpumem.Plugin
+	fault *faulty // nil unless created with newFaultyWorld
+	base  int
+	seq   int
+}
+
+// newFaultyWorld: the manager has the real cpumem plugin and the scriptable faulty plugin
+func newFaultyWorld(t *testing.T, base, maxShare int) *world {
+	w := newWorld(t, base, maxShare)
+	w.fault = &faulty{}
+	w.mgr.AddPlugins(w.fault)
+	return w
 }
 
 func newWorld(t *testing.T, base, maxShare int) *world {
@@ -395,6 +462,7 @@ type sop struct {
 	opts  resourcetypes.RawParams
 	label string
 	count int // alloc: deploy count; realloc: live position
+	fault string // "", "commit" or "calc": scripted failure of the second plugin during this operation
 }
 
 type stepRec struct {
@@ -440,6 +508,9 @@ func (g gen) history(w *world, spec nodeSpec, nops int, whole bool, jsonTrip boo
 	var last *lastOp
 
 	observe := func(opTerm, opName string, detail any, err error, delta *ctypes.WorkloadResource) {
+		if w.fault != nil {
+			w.fault.failCommit, w.fault.failCalc = false, false
+		}
 		_, usage, d := w.read(node, live)
 		remapTerm, remapDesc, bad := w.remap(node, live)
 		if bad {
@@ -473,13 +544,42 @@ func (g gen) history(w *world, spec nodeSpec, nops int, whole bool, jsonTrip boo
 				choice = "rollback-alloc"
 			case last != nil && last.kind == "realloc" && x < 25:
 				choice = "rollback-realloc"
-			case len(live) == 0 || x < 45:
+			case len(live) == 0 || x < 42:
 				choice = "alloc"
-			case x < 60:
+			case x < 55:
 				choice = "release"
+			case x < 63:
+				choice = "readd"
 			default:
 				choice = "realloc"
 			}
+		}
+		// fault injection: the second plugin fails in the commit step (or in the calculation) of this operation
+		failCommit, failCalc := false, false
+		if w.fault != nil && (forced == nil || forced.fault != "") {
+			if forced != nil {
+				failCommit, failCalc = forced.fault == "commit", forced.fault == "calc"
+			} else if x := g.intn(100); x < 12 {
+				failCommit = true
+			} else if x < 16 {
+				failCalc = true
+			}
+			w.fault.failCommit, w.fault.failCalc = failCommit, failCalc
+		}
+		wrap := func(opTerm string) string {
+			if failCommit {
+				return "(OpFailedCommit " + opTerm + ")"
+			}
+			return opTerm
+		}
+		tagName := func(n string) string {
+			if failCommit {
+				return n + "+commit-fault"
+			}
+			if failCalc {
+				return n + "+calc-fault"
+			}
+			return n
 		}
 		switch choice {
 		case "alloc":
@@ -491,7 +591,7 @@ func (g gen) history(w *world, spec nodeSpec, nops int, whole bool, jsonTrip boo
 			ws, _, err := w.mgr.Alloc(w.ctx, node, count, resourcetypes.Resources{pluginName: opts})
 			calcOK := len(ws) > 0 && ws[0][pluginName] != nil
 			if err != nil && !calcOK {
-				observe("OpAllocFail", "alloc-"+kind, map[string]any{"count": count, "opts": opts}, err, nil)
+				observe("OpAllocFail", tagName("alloc-"+kind), map[string]any{"count": count, "opts": opts}, err, nil)
 				last = nil
 				continue
 			}
@@ -512,7 +612,22 @@ func (g gen) history(w *world, spec nodeSpec, nops int, whole bool, jsonTrip boo
 			} else {
 				last = nil
 			}
-			observe("(OpAlloc "+vh.List(terms)+")", "alloc-"+kind, map[string]any{"count": count, "opts": opts}, err, nil)
+			observe(wrap("(OpAlloc "+vh.List(terms)+")"), tagName("alloc-"+kind), map[string]any{"count": count, "opts": opts}, err, nil)
+		case "readd":
+			// a stale / duplicate rollback: the resources of a live workload are added once more
+			// (refused by the plugin when its cores are taken)
+			if len(live) == 0 {
+				continue
+			}
+			i := g.intn(len(live))
+			_, _, err := w.mgr.SetNodeResourceUsage(w.ctx, node, nil, nil, []resourcetypes.Resources{live[i].res}, true, plugins.Incr)
+			term := "(OpAlloc " + vh.List([]string{coqWR(parseWR(live[i].res[pluginName]))}) + ")"
+			if err == nil {
+				nextID++
+				live = append(live, &workload{id: fmt.Sprintf("w%d", nextID), res: live[i].res})
+			}
+			last = nil
+			observe(wrap(term), tagName("readd"), map[string]any{"idx": i}, err, nil)
 		case "rollback-alloc":
 			if last == nil || last.kind != "alloc" {
 				continue
@@ -529,7 +644,7 @@ func (g gen) history(w *world, spec nodeSpec, nops int, whole bool, jsonTrip boo
 				live = live[:len(live)-n]
 			}
 			last = nil
-			observe("(OpRelease "+natList(idxs)+")", "rollback-alloc", map[string]any{"idxs": idxs}, err, nil)
+			observe(wrap("(OpRelease "+natList(idxs)+")"), tagName("rollback-alloc"), map[string]any{"idxs": idxs}, err, nil)
 		case "release":
 			if len(live) == 0 {
 				continue
@@ -540,7 +655,7 @@ func (g gen) history(w *world, spec nodeSpec, nops int, whole bool, jsonTrip boo
 				live = append(live[:i:i], live[i+1:]...)
 			}
 			last = nil
-			observe("(OpRelease "+natList([]int{i})+")", "release", map[string]any{"idx": i}, err, nil)
+			observe(wrap("(OpRelease "+natList([]int{i})+")"), tagName("release"), map[string]any{"idx": i}, err, nil)
 		case "realloc":
 			if len(live) == 0 {
 				continue
@@ -555,7 +670,7 @@ func (g gen) history(w *world, spec nodeSpec, nops int, whole bool, jsonTrip boo
 			_, deltaR, newR, err := w.mgr.Realloc(w.ctx, node, origin.res, resourcetypes.Resources{pluginName: opts})
 			detail := map[string]any{"idx": i, "opts": opts, "origin": originWR}
 			if newR[pluginName] == nil { // CalculateRealloc refused
-				observe(fmt.Sprintf("(OpReallocFail %d)", i), "realloc-"+kind, detail, err, nil)
+				observe(fmt.Sprintf("(OpReallocFail %d)", i), tagName("realloc-"+kind), detail, err, nil)
 				last = nil
 				continue
 			}
@@ -574,7 +689,7 @@ func (g gen) history(w *world, spec nodeSpec, nops int, whole bool, jsonTrip boo
 			if strings.HasPrefix(kind, "keep-samecpu") && len(originWR.CPUMap) > 0 {
 				keepBindCases++
 			}
-			observe(fmt.Sprintf("(OpRealloc %d %s %s)", i, coqReq(parseReq(opts)), coqWR(newWR)), "realloc-"+kind, detail, err, deltaWR)
+			observe(wrap(fmt.Sprintf("(OpRealloc %d %s %s)", i, coqReq(parseReq(opts)), coqWR(newWR))), tagName("realloc-"+kind), detail, err, deltaWR)
 		case "rollback-realloc":
 			if last == nil || last.kind != "realloc" {
 				continue
@@ -587,7 +702,7 @@ func (g gen) history(w *world, spec nodeSpec, nops int, whole bool, jsonTrip boo
 				live[i] = last.origin
 			}
 			last = nil
-			observe(fmt.Sprintf("(OpRollbackRealloc %d %s)", i, coqWR(originWR)), "rollback-realloc", map[string]any{"idx": i}, err, deltaWR)
+			observe(wrap(fmt.Sprintf("(OpRollbackRealloc %d %s)", i, coqWR(originWR))), tagName("rollback-realloc"), map[string]any{"idx": i}, err, deltaWR)
 		}
 	}
 	for k, v := range counts {
@@ -618,7 +733,7 @@ func TestC08(t *testing.T) {
 	r.Coq("From Verif Require Import Base.GoFloat Cpumem.Types Cpumem.Node.\nClose Scope Z_scope.", "Node.case", agreeFn, okFn)
 	r.Shard = 20
 	g := gen{r}
-	w := newWorld(t, 100, -1)
+	w := newFaultyWorld(t, 100, -1)
 
 	emit := func(kind string, spec nodeSpec, nops int, whole, jsonTrip bool, script []sop) {
 		term, desc, tags, nontrivial := g.history(w, spec, nops, whole, jsonTrip, script)
@@ -633,21 +748,28 @@ func TestC08(t *testing.T) {
 	numa2 := nodeSpec{cores: 4, share: 100, memory: 4000, numa: [][]string{{"0", "2"}, {"1", "3"}}, numaMem: []int64{2000, 2000}, describe: "numa2"}
 	plain := nodeSpec{cores: 4, share: 100, memory: 4000, describe: "plain"}
 	boundAlloc := func(cpu float64, mem int64, count int) sop {
-		return sop{"alloc", resourcetypes.RawParams{"cpu-bind": true, "cpu-request": cpu, "cpu-limit": cpu, "memory-request": mem, "memory-limit": mem}, "bound", count}
+		return sop{"alloc", resourcetypes.RawParams{"cpu-bind": true, "cpu-request": cpu, "cpu-limit": cpu, "memory-request": mem, "memory-limit": mem}, "bound", count, ""}
 	}
 	unboundAlloc := func(cpu float64, mem int64, count int) sop {
-		return sop{"alloc", resourcetypes.RawParams{"cpu-request": cpu, "cpu-limit": cpu, "memory-request": mem, "memory-limit": mem}, "unbound", count}
+		return sop{"alloc", resourcetypes.RawParams{"cpu-request": cpu, "cpu-limit": cpu, "memory-request": mem, "memory-limit": mem}, "unbound", count, ""}
 	}
 	keepRealloc := func(pos int, cpu float64, mem int64, label string) sop {
-		return sop{"realloc", resourcetypes.RawParams{"keep-cpu-bind": true, "cpu-request": cpu, "cpu-limit": cpu, "memory-request": mem, "memory-limit": mem}, label, pos}
+		return sop{"realloc", resourcetypes.RawParams{"keep-cpu-bind": true, "cpu-request": cpu, "cpu-limit": cpu, "memory-request": mem, "memory-limit": mem}, label, pos, ""}
 	}
 	plainOp := func(kind string) sop { return sop{kind: kind} }
+	withFault := func(o sop, f string) sop { o.fault = f; return o }
 	// witness of the repaired DeepCopy defect: NUMA-bound alloc, then realloc with no change / more memory
 	emit("corpus", numa2, 3, true, false, []sop{boundAlloc(1, 100, 1), keepRealloc(0, 0, 0, "keep-samecpu"), keepRealloc(0, 0, 50, "keep-samecpu")})
 	emit("corpus", numa2, 4, true, true, []sop{boundAlloc(1, 100, 2), keepRealloc(1, 0, 50, "keep-samecpu"), plainOp("rollback-realloc"), plainOp("release")})
-	emit("corpus", numa2, 5, true, true, []sop{unboundAlloc(0.5, 100, 2), boundAlloc(2, 100, 1), keepRealloc(2, 1, 0, "keep-grow"), sop{"realloc", resourcetypes.RawParams{"cpu-bind": true, "cpu-request": 1.0, "cpu-limit": 1.0}, "bind-grow", 0}, plainOp("rollback-realloc")})
+	emit("corpus", numa2, 5, true, true, []sop{unboundAlloc(0.5, 100, 2), boundAlloc(2, 100, 1), keepRealloc(2, 1, 0, "keep-grow"), sop{"realloc", resourcetypes.RawParams{"cpu-bind": true, "cpu-request": 1.0, "cpu-limit": 1.0}, "bind-grow", 0, ""}, plainOp("rollback-realloc")})
 	emit("corpus", plain, 4, true, false, []sop{boundAlloc(1, 100, 2), plainOp("rollback-alloc"), boundAlloc(2, 0, 1), keepRealloc(0, -1, 0, "keep-shrink")})
 	emit("corpus", plain, 6, false, true, []sop{boundAlloc(1.5, 100, 1), unboundAlloc(0.3, 0, 3), keepRealloc(0, 0.2, 100, "keep-grow"), plainOp("rollback-realloc"), plainOp("release"), plainOp("release")})
+	// failure paths: a refused re-add (duplicate rollback of a bound workload), and the second plugin failing
+	// in the commit step of an alloc / a release / a realloc, and in the calculation
+	emit("corpus", plain, 3, true, false, []sop{boundAlloc(2, 100, 1), plainOp("readd"), plainOp("release")})
+	emit("corpus", numa2, 6, true, true, []sop{boundAlloc(1, 100, 2), withFault(boundAlloc(1, 100, 1), "commit"), withFault(plainOp("release"), "commit"),
+		withFault(keepRealloc(0, 0, 50, "keep-samecpu"), "commit"), withFault(boundAlloc(1, 0, 1), "calc"), plainOp("release")})
+
 	// ---- random histories ----
 	n := r.N(80, 3000)
 	for i := 0; i < n; i++ {
